@@ -30,6 +30,7 @@ import (
 	"github.com/wundergraph/graphql-go-tools/v2/pkg/engine/datasource/httpclient"
 	"github.com/wundergraph/graphql-go-tools/v2/pkg/errorcodes"
 	"github.com/wundergraph/graphql-go-tools/v2/pkg/internal/unsafebytes"
+	"github.com/wundergraph/graphql-go-tools/v2/pkg/verifhook"
 )
 
 const (
@@ -2091,6 +2092,7 @@ func (l *Loader) loadByContext(ctx context.Context, source DataSource, fetchItem
 	}
 
 	if shared {
+		verifhook.Yield("subgraph.follower.joined", item.SFKey)
 		select {
 		case <-item.loaded:
 		case <-ctx.Done():
@@ -2127,6 +2129,7 @@ func (l *Loader) loadByContext(ctx context.Context, source DataSource, fetchItem
 
 	// Perform the actual load
 	err := l.loadByContextDirect(ctx, source, headers, input, res)
+	verifhook.Yield("subgraph.leader.loaded", item.SFKey)
 	if err != nil {
 		item.err = err
 		return err
